@@ -31,13 +31,13 @@
    addresses and of wall-clock speed are statements about the interpreter; no
    Gallina model has those inputs.  These clauses -- and bit-identity of the
    final statistics across processes -- are carried by the multi-process tie of
-   harness/c07.py alone.  For the composed model (listeners and streams) the id
-   renaming and pause-point theorems are proved only for the fragment without
-   pub/sub and streams (Sim/Model.v programs); for fan-out programs they rest
-   on the tie. *)
+   harness/c07.py alone.  The id-renaming theorem is proved for Sim/Model.v
+   programs and for the composed model (listeners, streams, statistics); the
+   pause-point theorem is proved for Sim/Model.v programs only -- for programs
+   with pub/sub and streams pause-point independence rests on the tie. *)
 From Coq Require Import ZArith List Bool Arith.
 From PV Require Import EventList.Key Sim.Model Sim.Case Sim.Order Sim.Horizon Sim.Reinit Sim.ReinitProofs
-  Sim.Repro Sim.ReproProofs.
+  Sim.Repro Sim.ReproProofs Sim.ReproEmbed.
 From PV Require PubSub.Model PubSub.Proofs PubSub.OpsProofs PubSub.SubsProofs.
 Import ListNotations.
 Local Open Scope Z_scope.
@@ -70,6 +70,24 @@ Theorem C07_ids_below_counter : forall s, hreach s -> forall a, In a (dom s) -> 
 Proof. intros s H. apply Inv_dom_lt. apply hreach_inv. exact H. Qed.
 Print Assumptions C07_ids_below_counter.
 
+(* the same for the composed model (handlers and listeners that fire, draw from
+   shared streams, (un)subscribe; statistics): [ren_y f n' y] renames the event
+   ids of the simulator part of y.  Any history h of commands, with any models
+   taking turns, gives the same snapshots, logs, deliveries to listeners,
+   draws, producer, streams and reported statistics. *)
+Theorem C07_composed_run_id_monotone_invariant : forall nint f n' y fuel hf h,
+  (forall a, In a (dom (y_sim y)) -> a < nid (y_sim y)) -> MonoOn f n' (y_sim y) ->
+  let ra := y_hist nint fuel hf y h in
+  let rb := y_hist nint fuel hf (ren_y f n' y) h in
+  let ya := fst (fst ra) in let yb := fst (fst rb) in
+  snd (fst rb) = snd (fst ra) /\ snd rb = snd ra
+  /\ logs_of (y_sim yb) = logs_of (y_sim ya)
+  /\ y_dlv yb = y_dlv ya /\ y_drw yb = y_drw ya
+  /\ y_subm yb = y_subm ya /\ y_str yb = y_str ya /\ y_ser yb = y_ser ya
+  /\ yreported yb = yreported ya.
+Proof. exact y_run_id_monotone_invariant. Qed.
+Print Assumptions C07_composed_run_id_monotone_invariant.
+
 (* ---- clause: "independent ... of where the run was paused" --------------------
    C03's segmentation theorem: two sequences of run commands (start, step, stop,
    run_up_to, run_up_to_including with any bounds), for programs with the same
@@ -87,6 +105,33 @@ Theorem C07_pause_point_independence : forall p p' fuel fuel' cs cs' s t,
   /\ clock s1 = clock t1.
 Proof. exact segmentation. Qed.
 Print Assumptions C07_pause_point_independence.
+
+(* The composed model restricted to programs without pub/sub, streams and
+   statistics IS Sim/Model.v ([embed p]; hf: machine fuel above the longest
+   handler body): same simulator state and snapshots for every command sequence.
+   So the pause-point theorem holds for this fragment of the composed model; for
+   programs WITH listeners and streams pause-point independence is carried by
+   the tie (every child's segmented run is evaluated on the composed model and
+   all digests are compared). *)
+Theorem C07_composed_model_extends_Sim_Model : forall nint p hf,
+  (forall h, (length (body p h) < hf)%nat) ->
+  forall fuel cs y,
+  let ry := y_hist nint fuel hf y (map (fun c => (embed p, c)) cs) in
+  let rm := run_cmds fuel p (y_sim y) cs in
+  y_sim (fst (fst ry)) = fst rm /\ snd (fst ry) = snd rm /\ snd ry = false.
+Proof. intros nint p hf H fuel cs y. exact (y_hist_embed nint p hf H fuel cs y). Qed.
+Print Assumptions C07_composed_model_extends_Sim_Model.
+
+Theorem C07_composed_pause_point_independence_fragment : forall nint p p' hf hf' fuel fuel' cs cs' y t,
+  (forall h, (length (body p h) < hf)%nat) -> (forall h, (length (body p' h) < hf')%nat) ->
+  prog_equiv p p' -> core_eq (y_sim y) (y_sim t) -> Quiet (y_sim y) -> Quiet (y_sim t) ->
+  forallb is_runcmd cs = true -> forallb is_runcmd cs' = true ->
+  let s1 := y_sim (fst (fst (y_hist nint fuel hf y (map (fun c => (embed p, c)) cs)))) in
+  let t1 := y_sim (fst (fst (y_hist nint fuel' hf' t (map (fun c => (embed p', c)) cs')))) in
+  ps s1 = PEnded -> incl s1 = true -> ps t1 = PEnded -> incl t1 = true ->
+  trace s1 = trace t1 /\ clock s1 = clock t1 /\ pend s1 = pend t1.
+Proof. exact composed_pause_point_independence_embedded. Qed.
+Print Assumptions C07_composed_pause_point_independence_fragment.
 
 (* ---- clause: "When several listeners are subscribed to one event type they
    are always notified in subscription order, so models whose listeners schedule
